@@ -83,6 +83,8 @@ pub fn reciprocal_mg10(d: u64) -> u64 {
     let d40 = ONE + (d >> 24);
     let d63 = (d + ONE) >> 1;
     // let v0 = Wrapping(TABLE[(d9.0 - 256) as usize] as u64);
+    #[cfg(recmo_uint_verif)]
+    crate::__verif::table_row((d9.0 as usize).wrapping_sub(256));
     let v0 = Wrapping(*unsafe { TABLE.get_unchecked((d9.0 - 256) as usize) } as u64);
     let v1 = (v0 << 11) - ((v0 * v0 * d40) >> 40) - ONE;
     let v2 = (v1 << 13) + ((v1 * ((ONE << 60) - v1 * d40)) >> 47);
@@ -108,12 +110,18 @@ pub fn reciprocal_2_mg10(d: u128) -> u64 {
     let d1 = (d >> 64) as u64;
     let d0 = d as u64;
 
+    #[cfg(recmo_uint_verif)]
+    crate::__verif::hit(crate::__verif::RECIP2_CALL);
     let mut v = reciprocal(d1);
     let mut p = d1.wrapping_mul(v).wrapping_add(d0);
     // OPT: This is checking the carry flag
     if p < d0 {
+        #[cfg(recmo_uint_verif)]
+        crate::__verif::hit(crate::__verif::RECIP2_C1);
         v = v.wrapping_sub(1);
         if p >= d1 {
+            #[cfg(recmo_uint_verif)]
+            crate::__verif::hit(crate::__verif::RECIP2_C2);
             v = v.wrapping_sub(1);
             p = p.wrapping_sub(d1);
         }
@@ -126,8 +134,12 @@ pub fn reciprocal_2_mg10(d: u128) -> u64 {
     let p = p.wrapping_add(t1);
     // OPT: This is checking the carry flag
     if p < t1 {
+        #[cfg(recmo_uint_verif)]
+        crate::__verif::hit(crate::__verif::RECIP2_C3);
         v = v.wrapping_sub(1);
         if (u128::from(p) << 64) | u128::from(t0) >= d {
+            #[cfg(recmo_uint_verif)]
+            crate::__verif::hit(crate::__verif::RECIP2_C4);
             v = v.wrapping_sub(1);
         }
     }
